@@ -265,6 +265,14 @@ impl<C: BgpConfig + Send> Session<C> {
                     }
                     Command::Disconnect(reason) => {
                         self.disconnect(reason);
+                        // A stop command ends in Idle in every state
+                        // (RFC 4271 8.2.2, ManualStop / AutomaticStop):
+                        // ConnectRetryCounter and ConnectRetryTimer to
+                        // zero, DelayOpenTimer stopped, state Idle.
+                        self.reset_connect_retry_counter();
+                        self.connect_retry_timer.stop_and_reset();
+                        self.delay_open_timer.stop_and_reset();
+                        self.set_state(State::Idle);
                     }
                     Command::ForcedKeepalive => {
                         self.send_keepalive();
